@@ -29,6 +29,9 @@
 (*  - a colour reaches WebVTT only as one of five named classes            *)
 (*  - WriteToSTL justifies left and uses row 20 of 23 when the list says   *)
 (*    nothing, whatever WebVTTAlign / TTMLTextAlign hold                   *)
+(* The voice name of a line (WebVTT <v>, the Name column of SubStation      *)
+(* Alpha) is part of the document: it survives between those two formats   *)
+(* and nowhere else.                                                       *)
 (* tts:extent / tts:origin (region geometry) are not modelled.             *)
 (***************************************************************************)
 EXTENDS Integers, Sequences, TLC
@@ -41,7 +44,7 @@ Nil == [has |-> FALSE, b |-> FALSE, i |-> FALSE, u |-> FALSE, wb |-> FALSE, wi |
 Set == [Nil EXCEPT !.has = TRUE]
 
 X0 == [b |-> FALSE, i |-> FALSE, u |-> FALSE, col |-> "", tags |-> <<>>, align |-> "", pos |-> "", line |-> "",
-       talign |-> "", jc |-> 0, vp |-> 0, mnr |-> 0, dsc |-> 0, it |-> FALSE, un |-> FALSE, bx |-> FALSE]
+       talign |-> "", jc |-> 0, vp |-> 0, mnr |-> 0, dsc |-> 0, it |-> FALSE, un |-> FALSE, bx |-> FALSE, voice |-> ""]
 
 ---------------------------------------------------------------------------
 (* webvtt.go cssColor: the five class colours, compared in lower case *)
@@ -72,15 +75,15 @@ PropSTL(sa, mnr) ==
 JustOf(jc) == CASE jc = 1 -> "l" [] jc = 2 -> "c" [] jc = 3 -> "r" [] OTHER -> "u"
 JcOf(sa) == CASE sa.just = "u" -> 0 [] sa.just = "c" -> 2 [] sa.just = "r" -> 3 [] OTHER -> 1    \* nil: left
 Read(f, x) ==
-  CASE f = "srt" -> [cue |-> Nil, mnr |-> 0, dsc |-> -1,
+  CASE f = "srt" -> [cue |-> Nil, mnr |-> 0, dsc |-> -1, voice |-> "",
                      run |-> IF x.b \/ x.i \/ x.u \/ x.col # ""
                              THEN PropSRT([Set EXCEPT !.b = x.b, !.i = x.i, !.u = x.u, !.col = x.col]) ELSE Nil]
-    [] f = "vtt" -> [cue |-> PropVTT([Set EXCEPT !.align = x.align, !.pos = x.pos, !.line = x.line]), mnr |-> 0, dsc |-> -1,
+    [] f = "vtt" -> [cue |-> PropVTT([Set EXCEPT !.align = x.align, !.pos = x.pos, !.line = x.line]), mnr |-> 0, dsc |-> -1, voice |-> x.voice,
                      run |-> IF x.tags # <<>> THEN PropVTT([Set EXCEPT !.tags = x.tags]) ELSE Nil]
-    [] f = "ttml" -> [cue |-> PropTTML([Set EXCEPT !.talign = x.talign]), mnr |-> 0, dsc |-> -1,
+    [] f = "ttml" -> [cue |-> PropTTML([Set EXCEPT !.talign = x.talign]), mnr |-> 0, dsc |-> -1, voice |-> "",
                       run |-> PropTTML([Set EXCEPT !.tcol = x.col])]
-    [] f = "ssa" -> [cue |-> Set, run |-> Nil, mnr |-> 0, dsc |-> -1]
-    [] f = "stl" -> [cue |-> PropSTL([Set EXCEPT !.just = JustOf(x.jc), !.row = x.vp], x.mnr), mnr |-> x.mnr, dsc |-> x.dsc,
+    [] f = "ssa" -> [cue |-> Set, run |-> Nil, mnr |-> 0, dsc |-> -1, voice |-> x.voice]
+    [] f = "stl" -> [cue |-> PropSTL([Set EXCEPT !.just = JustOf(x.jc), !.row = x.vp], x.mnr), mnr |-> x.mnr, dsc |-> x.dsc, voice |-> "",
                      run |-> [Set EXCEPT !.it = x.it, !.un = x.un, !.bx = x.bx]]
 
 (* the writers: what the written file says *)
@@ -90,9 +93,9 @@ ClampRow(v, dsc) == IF dsc \in {1, 2} THEN (IF v < 1 THEN 1 ELSE IF v > 23 THEN 
 Write(f, d) ==
   CASE f = "srt" -> [X0 EXCEPT !.b = d.run.b, !.i = d.run.i, !.u = d.run.u, !.col = d.run.col]
     [] f = "vtt" -> [X0 EXCEPT !.tags = (IF Css(d.run.tcol) # "" THEN <<"c." \o Css(d.run.tcol)>> ELSE <<>>) \o d.run.tags,
-                               !.align = d.cue.align, !.pos = d.cue.pos, !.line = d.cue.line]
+                               !.align = d.cue.align, !.pos = d.cue.pos, !.line = d.cue.line, !.voice = d.voice]
     [] f = "ttml" -> [X0 EXCEPT !.talign = d.cue.talign, !.col = d.run.tcol]
-    [] f = "ssa" -> X0
+    [] f = "ssa" -> [X0 EXCEPT !.voice = d.voice]
     [] f = "stl" -> [X0 EXCEPT !.jc = JcOf(d.cue), !.vp = ClampRow(IF d.cue.row >= 0 THEN d.cue.row ELSE 20, DscOut(d)),
                                !.mnr = IF d.mnr > 0 THEN d.mnr ELSE 23, !.dsc = DscOut(d),
                                !.it = d.run.it, !.un = d.run.un, !.bx = d.run.bx]
@@ -106,10 +109,10 @@ Colours == {"", "#00ffff", "#ffff00", "#FF0000", "#123456", "red"}
 TagStacks == {<<>>, <<"b">>, <<"i">>, <<"u">>, <<"b", "i">>, <<"b", "i", "u">>, <<"c.cyan">>, <<"c.cyan", "u">>, <<"c.loud", "b">>}
 Looks(f) ==
   CASE f = "srt" -> {[X0 EXCEPT !.b = b, !.i = i, !.u = u, !.col = c] : b, i, u \in BOOLEAN, c \in Colours}
-    [] f = "vtt" -> {[X0 EXCEPT !.tags = t, !.align = a, !.pos = p, !.line = ln] :
-                       t \in TagStacks, a \in {"", "left", "right", "center"}, p \in {"", "10%"}, ln \in {"", "50%"}}
+    [] f = "vtt" -> {[X0 EXCEPT !.tags = t, !.align = a, !.pos = p, !.line = ln, !.voice = v] :
+                       t \in TagStacks, a \in {"", "left", "right", "center"}, p \in {"", "10%"}, ln \in {"", "50%"}, v \in {"", "Bob"}}
     [] f = "ttml" -> {[X0 EXCEPT !.col = c, !.talign = a] : c \in Colours, a \in {"", "left", "right", "center"}}
-    [] f = "ssa" -> {X0}
+    [] f = "ssa" -> {[X0 EXCEPT !.voice = v] : v \in {"", "Bob"}}
     [] f = "stl" -> {[X0 EXCEPT !.jc = j, !.vp = v, !.mnr = m, !.dsc = ds, !.it = it, !.un = un, !.bx = bx] :
                        j \in 0..3, v \in {0, 1, 5, 20, 22, 30}, m \in {11, 23}, ds \in {0, 1}, it, un, bx \in BOOLEAN}
 Cases == UNION {{<<f, g, x>> : g \in Fmts, x \in Looks(f)} : f \in Fmts}
@@ -128,6 +131,7 @@ Survives(f, g, x) ==
   /\ f = "ttml" /\ g = "vtt" => o.cue.align = x.talign /\ (Css(x.col) # "" => o.run.tags = <<"c." \o Css(x.col)>>)
   /\ f = "stl" /\ g = "vtt" => o.cue.align = m.cue.align /\ o.cue.line = m.cue.line
   /\ f = "vtt" /\ g = "srt" => ~o.run.b /\ ~o.run.i /\ ~o.run.u                      \* the documented loss
-  /\ g = "ssa" => o = Read("ssa", X0)
+  /\ g = "ssa" => o = Read("ssa", [X0 EXCEPT !.voice = m.voice])
+  /\ x.voice # "" => ((o.voice = x.voice) = (f \in {"vtt", "ssa"} /\ g \in {"vtt", "ssa"}))   \* voice names live in WebVTT and SubStation Alpha only
   /\ g = "stl" /\ f # "stl" => o.cue.just = "l" /\ o.cue.row = 20 /\ o.cue.line = "82%"
 =============================================================================
